@@ -22,6 +22,22 @@ CTL_TRUST = [
 ]
 
 PROPS = {
+    "C02": {
+        "modules": ["CambrianModel.Props.C02"],
+        "theorems": ["Cambrian.Props.C02_member", "Cambrian.Props.C02_min1", "Cambrian.Props.C02_nonempty1",
+                     "Cambrian.Ctl.run_popInv"],
+        "correspondences": ["ctl"],
+        "trusted": CTL_TRUST + ["float law FL-mean1 (mean of one value is that value; exercised by cvh selftest); for sample size > 1 the mean is an observed value"],
+        "assumptions": ["objective values compared through their order codes (-0.0 = 0.0)"],
+    },
+    "C08": {
+        "modules": ["CambrianModel.Props.C08"],
+        "theorems": ["Cambrian.Props.C08_seeds", "Cambrian.Props.C08_same", "Cambrian.Props.C08_count",
+                     "Cambrian.Props.C08_ids", "Cambrian.Props.C08_first"],
+        "correspondences": ["ctl"],
+        "trusted": CTL_TRUST,
+        "assumptions": ["float laws used: none", "sample size >= 1 (AlgoConfigBuilder rejects 0)"],
+    },
     "C04": {
         "modules": ["CambrianModel.Props.C04"],
         "theorems": ["Cambrian.Props.C04_abort_request", "Cambrian.Props.C04_no_start_after_abort",
